@@ -7,10 +7,9 @@ import KotoVerif.Lemmas.C13Deq
 namespace KotoVerif.Iter
 
 /-- pipelines covered by the refinement theorem: no endless parts (`cycle`, `repeat` without count;
-these have the separate statement `cycle_take`) and not the host byte iterator (whose `next_back`
-is wrong in the code, see `byteiter_back_wrong`) -/
+these have the separate statement `cycle_take`) -/
 def Pipe.regular : Pipe → Bool
-  | .src (.repInf _) | .src (.hostBytes _) => false
+  | .src (.repInf _) => false
   | .src _ => true
   | .cycle _ => false
   | .each _ p | .keep _ p | .take _ p | .takeWhile _ p | .skip _ p | .step _ p | .enumerate p
@@ -78,7 +77,9 @@ theorem src_sem (fuel : Nat) (s : Src) (xs : List Val) (hreg : (Pipe.src s).regu
     simp [Src.elems] at hden; subst hden
     exact ⟨rep_fwd v n, fun h => by simp [Pipe.bidir] at h⟩
   | repInf v => simp [Pipe.regular] at hreg
-  | hostBytes ys => simp [Pipe.regular] at hreg
+  | hostBytes ys =>
+    simp [Src.elems] at hden; subst hden
+    exact ⟨deq_fwd (hostBytes_deq ys), fun _ => hostBytes_deq ys⟩
 
 theorem pipe_sem (fuel : Nat) (p : Pipe) : ∀ (xs : List Val), p.regular = true → p.err = none →
     den p = some xs → p.fits fuel → Sem fuel p xs := by
